@@ -118,6 +118,7 @@ class SearchTracer:
 
     def __init__(self):
         self.passes = []
+        self.picks = []
         self.cur = None
         self.problem = None
 
@@ -128,7 +129,9 @@ class SearchTracer:
             from edxml.miner.node import Node
             from edxml.miner.inference import Inference
             self.classes = (ConceptInstanceGraph, Node, Inference)
+            from edxml.miner.node import EventObjectNode
             self.orig = (ConceptInstanceGraph._reason_from, Node.get_same_concept_inferences, Inference.reason)
+            self.orig_pick = ConceptInstanceGraph.find_optimal_seed
         except Exception as ex:
             self.problem = 'the reasoning pass cannot be traced: %s' % ex
             self.classes = None
@@ -190,6 +193,18 @@ class SearchTracer:
                 if not hit:
                     p['unmatched'] += 1
             return o_reason(edge, seed, confidence, *a, **kw)
+        o_pick = self.orig_pick
+
+        def pick(g, *a, **kw):
+            if a or kw:
+                return o_pick(g, *a, **kw)
+            objs = [n for n in g._nodes.values() if isinstance(n, EventObjectNode)]
+            cands = [[k, n.taint, n.concept_association.get_confidence()] for k, n in enumerate(objs)]
+            chosen = o_pick(g)
+            where = [k for k, n in enumerate(objs) if n is chosen]
+            tracer.picks.append([cands, None if chosen is None else (where[0] if where else len(objs))])
+            return chosen
+        ConceptInstanceGraph.find_optimal_seed = pick
         ConceptInstanceGraph._reason_from = reason_from
         Node.get_same_concept_inferences = same
         Inference.reason = reason
@@ -199,6 +214,7 @@ class SearchTracer:
         if self.classes:
             g, n, i = self.classes
             g._reason_from, n.get_same_concept_inferences, i.reason = self.orig
+            g.find_optimal_seed = self.orig_pick
         return False
 
 
@@ -209,6 +225,10 @@ def search_requests(passes):
                      'eps': [str(EPS.numerator), str(EPS.denominator)], 'maxDepth': max(0, int(p['max_depth'])),
                      'trace': [[n, [[t, f2q(c), None if r is None else f2q(r)] for t, c, r in es]] for n, es in p['steps']]})
     return reqs
+
+
+def pick_request(picks):
+    return {'op': 'pick', 'picks': [[[[k, f2q(t), f2q(c)] for k, t, c in cands], ch] for cands, ch in picks]}
 
 
 class Hang(Exception):
@@ -224,7 +244,7 @@ def f2q(x):
     return [str(q.numerator), str(q.denominator)]
 
 
-def run(spec, order, min_conf, max_depth, upgrade_at=None):
+def run(spec, order, min_conf, max_depth, upgrade_at=None, mine_at=None):
     from edxml.miner.knowledge import KnowledgeBase
     from edxml.miner import Miner
     from edxml.miner.node import EventObjectNode
@@ -252,6 +272,9 @@ def run(spec, order, min_conf, max_depth, upgrade_at=None):
                 if upgrade_at is not None and k == upgrade_at:
                     # the ontology is upgraded in mid stream: event types gain universals relations
                     m.add_ontology(build_ontology(spec, extra=True))
+                if mine_at is not None and k == mine_at:
+                    # mining in between: more events arrive afterwards and everything is mined again
+                    m.mine(None, min_conf, max_depth)
                 m.add_event(gen.build_event(ev, 'plain'))
             m.mine(None, min_conf, max_depth)
         outcome = 'ok'
@@ -318,7 +341,7 @@ def run(spec, order, min_conf, max_depth, upgrade_at=None):
         return {'skipped': False, 'outcome': 'inspect-raised:' + type(ex).__name__ + ':' + str(ex)[:100]}
     return {'skipped': False, 'outcome': 'ok', 'instances': insts, 'taints': taints, 'uncovered': uncovered, 'json_same': json_same, 'titles_same': titles_same,
             'universals': uni, 'noisy_checks': noisy_checks, 'taint_checks': taint_checks, 'n_nodes': len(nodes),
-            'passes': tracer.passes, 'trace_problem': tracer.problem}
+            'passes': tracer.passes, 'picks': tracer.picks, 'trace_problem': tracer.problem}
 
 
 class C20(Property):
@@ -328,7 +351,7 @@ class C20(Property):
     required_theorems = (
         'noisyOr_unit', 'noisyOr_ge_each', 'attribute_meets_minimum', 'taintOf_unit', 'taintHistory_unit', 'taintHistory_mono', 'dijkstra_unit', 'relatedStep_unit',
         'round_decreases', 'rounds_bounded', 'universals_exact', 'tenth_unit',
-        'search_wellformed', 'search_terminates', 'search_sorted', 'search_visited_final', 'checker_exact', 'coverage',
+        'pickOk_sound', 'search_wellformed', 'search_terminates', 'search_sorted', 'search_visited_final', 'checker_exact', 'coverage',
     )
     level_text = ('PARTIAL. Lean 4 theorems over (a) the confidence arithmetic of the miner on exact rationals: every noisy-or '
                   'combination (attribute, concept name and related concept confidences), the taint formula as the SDK computes '
@@ -340,7 +363,8 @@ class C20(Property):
                   'the loop ends within as many iterations as there are nodes), processes nodes in order of decreasing confidence '
                   'and never changes a confidence once its node was processed; the tolerant checker used for the comparison is '
                   'the exact algorithm when its slack is zero; (c) seed selection: each round leaves strictly fewer candidate seeds '
-                  '(mining without a seed ends within as many rounds as there are nodes), and a node with positive taint belongs '
+                  '(mining without a seed ends within as many rounds as there are nodes), an accepted choice of seed is an untainted '
+                  'most confident node and mining stops only when none is left, and a node with positive taint belongs '
                   'to an instance (coverage); (d) the mined universals are exactly the (name, description, container) pairs '
                   'present in the events. Tied to the code by replaying the trace of every reasoning pass of real mining runs '
                   '(processed nodes, considered edges, assigned confidences) through the checker and comparing the resulting '
@@ -370,6 +394,8 @@ class C20(Property):
             c = {'spec': spec, 'order': order, 'min_conf': rng.choice(MIN_CONF), 'max_depth': rng.choice(MAX_DEPTH)}
             if order and rng.random() < 0.5:
                 c['upgrade_at'] = rng.randrange(len(order))
+            if len(order) >= 2 and rng.random() < 0.3:
+                c['mine_at'] = rng.randrange(1, len(order))
             if i % 10 == 4:
                 # an event type that has relations of two kinds gains a second relation of the first kind in mid stream
                 et = {'name': 't0', 'names': ['p0', 'p1', 'p2', 'p3'],
@@ -391,13 +417,13 @@ class C20(Property):
         return ['jsonDropsNamingPriority'] if case.get('title_probe') else []
 
     def observe(self, case):
-        r = run(case['spec'], case['order'], case['min_conf'], case['max_depth'], case.get('upgrade_at'))
+        r = run(case['spec'], case['order'], case['min_conf'], case['max_depth'], case.get('upgrade_at'), case.get('mine_at'))
         if r.get('skipped') or r.get('outcome') != 'ok':
             return r
         # what is compared with the model: the arithmetic on the real values (rounded) and the universals
         return {'skipped': False, 'outcome': 'ok', 'noisy': [round(c[1], 9) for c in r['noisy_checks']],
                 'taint': [round(c[1], 9) for c in r['taint_checks']],
-                'taint_ok': self.taint_consistent(r), 'universals': r['universals'], 'search': self.search_view(r), 'detail': r}
+                'taint_ok': self.taint_consistent(r), 'universals': r['universals'], 'search': self.search_view(r), 'picks': ['ok'] * len(r['picks']), 'detail': r}
 
     @staticmethod
     def taint_consistent(r):
@@ -438,12 +464,16 @@ class C20(Property):
         # the reasoning passes of this run, replayed by the model's checker of executions
         self._n_uni = len(reqs)
         reqs.extend(search_requests(r['passes']))
+        reqs.append(pick_request(r['picks']))
         return reqs
 
     def predict(self, case, replies):
         if not replies:
             return 'undecided'
         uni = {'names': set(), 'descriptions': set(), 'containers': set()}
+        picks = ['ok' if ok else 'not a choice find_optimal_seed can make (an untainted, most confident event object node; none only when all are tainted)'
+                 for ok in replies[-1]['ok']]
+        replies = replies[:-1]
         n_search = sum(1 for rep in replies if 'valid' in rep)
         arith = replies[len(replies) - n_search - 1]
         for rep in replies[:len(replies) - n_search - 1]:
@@ -458,7 +488,7 @@ class C20(Property):
             else:
                 search.append(['not an execution of the reasoning pass: entry %d of the trace' % rep['firstBad'], None])
         return {'skipped': False, 'outcome': 'ok', 'noisy': noisy, 'taint': taint, 'taint_ok': True,
-                'universals': {k: sorted(list(x) for x in v) for k, v in uni.items()}, 'search': search, 'detail': 'undecided'}
+                'universals': {k: sorted(list(x) for x in v) for k, v in uni.items()}, 'search': search, 'picks': picks, 'detail': 'undecided'}
 
     def fill_undecided(self, case, obs, pred):
         if pred == 'undecided':
